@@ -304,6 +304,17 @@ func init() {
 	})
 }
 
+func c32Timeout() time.Duration {
+	if v := os.Getenv("VERIF_C32_TIMEOUT_S"); v != "" {
+		var n int
+		fmt.Sscanf(v, "%d", &n)
+		if n > 0 {
+			return time.Duration(n) * time.Second
+		}
+	}
+	return 12 * time.Minute
+}
+
 func run(c *lib.Ctx) {
 	c.Rule("a real node grows and reorganises along a generated block tree while 2-4 push subscribers (block and header type, with and without an explicit resume point) are served by a loopback HTTP endpoint that follows a generated acknowledge/fail script " +
 		"(runs of 1-3 failures; 3 consecutive failures deactivate the subscriber, which then registers again); the endpoint itself is the online monitor: every post must start at last-acknowledged+1 (or at the requested resume point+1), be internally consecutive, " +
@@ -316,8 +327,11 @@ func run(c *lib.Ctx) {
 			return
 		}
 		seed := c.CaseRng("hist", i).U64()
-		cr := c.Child("hist", histReq{Seed: seed, Restart: i%2 == 1}, lib.ChildOpts{Timeout: 12 * time.Minute})
+		cr := c.Child("hist", histReq{Seed: seed, Restart: i%2 == 1}, lib.ChildOpts{Timeout: c32Timeout()})
 		if cr.TimedOut {
+			if d := os.Getenv("VERIF_DEBUG_DIR"); d != "" {
+				os.WriteFile(filepath.Join(d, fmt.Sprintf("c32-watchdog-%d.txt", i)), []byte(cr.Stderr), 0o644)
+			}
 			c.Inconclusive("history %d: watchdog", i)
 			return
 		}
